@@ -64,6 +64,11 @@ def rnd_head(rng):
         ws = rng.choice([b'\t', b'\x0b', b'\x0c', b'\t '])
         k = rng.below(len(h) + 1)
         h = h[:k] + ws + h[k:]
+    if rng.chance(1, 8):
+        # the characters that START records / separator lines, inside a header: a reader that resumes a search at
+        # a wrong offset finds "records" here
+        k = rng.below(len(h) + 1)
+        h = h[:k] + rng.choice([b'@', b'>', b'+', b'@c', b'>x']) + h[k:]
     if rng.chance(1, 10):
         # non-UTF-8 / multi-byte content
         h += rng.choice([b'\xff', b'\xc3\xa9', b'\xe2\x82', b'\x80', b'\xf0\x9f\x98\x80', b'\xed\xa0\x80', b'\x00'])
